@@ -2,7 +2,7 @@
    ExtrOcamlBasic only: bool, option, list, prod, unit, sumbool, sumor map to
    OCaml's; N, Z, positive, nat stay the extracted inductives. *)
 Require Import ExtrOcamlBasic.
-From BMC Require Import Base Prim Layers Layers2 Hmac Aes Dispatch.
+From BMC Require Import Base Prim Layers Layers2 SpecLayers Hmac Aes Dispatch.
 Extraction Language OCaml.
 Extraction "model.ml"
   Impl.bcd_decode Impl.ones Impl.twos Impl.analog_parser Impl.checksum
@@ -10,6 +10,10 @@ Extraction "model.ml"
   Impl.rolling_duration Impl.rolling_byte Impl.is_system_relative Impl.is_device_relative
   Spec.bcd Spec.ones Spec.twos Spec.interpret Spec.pack_nibbles Spec.pack6
   Spec.bcd_plus_rune Spec.rolling_duration Spec.rolling_byte
+  c07_case SpecEnc.rmcp SpecEnc.deviceid SpecEnc.chassis SpecEnc.authcaps SpecEnc.ciphersuites SpecEnc.sessioninfo
+  SpecEnc.setpriv SpecEnc.guid SpecEnc.reserve SpecEnc.getsdrrsp SpecEnc.sdrhdr SpecEnc.sdrrepoinfo SpecEnc.sensorreading
+  SpecEnc.fsr SpecEnc.opensessionrsp SpecEnc.rakp2 SpecEnc.rakp4 SpecEnc.dcmicaps SpecEnc.dcmimand SpecEnc.dcmiopt
+  SpecEnc.dcmimgmt SpecEnc.dcmipower SpecEnc.powerreading SpecEnc.dcmisensor
   cbc_encrypt cbc_decrypt run_decode aes_dec aes_enc integrity_sign hmac_alg auth_params
   decode_rmcp rmcp_zero show_rmcp decode_selector selector_zero show_selector
   decode_v1session v1session_zero show_v1session decode_message message_zero show_message
